@@ -102,6 +102,7 @@ var srvScripts = []srvScript{
 	{hHost}, {hUpgrade}, {hConnection}, {hVersion}, {hKey}, {hProtocol}, {hExtensions}, {hOther}, {hMalformed},
 	{hKey, hVersion, hConnection, hUpgrade, hHost},
 	{hHost, hUpgrade, hOther, hConnection, hVersion, hKey, hProtocol, hExtensions},
+	{hHost, hUpgrade, hConnection, hVersion, hKey, hExtensions, hExtensions},
 	{hHost, hUpgrade, hConnection, hVersion, hKey, hProtocol, hProtocol},
 }
 
@@ -248,14 +249,17 @@ func serverUpgraderRules(c *Ctx, prop string) {
 		}
 		m.Models[ws+".btsSelectProtocol"] = sel("selectProtocol")
 		m.Models["callback:ProtocolCustom"] = sel("ProtocolCustom")
+		extN := 0 // extension selections made so far on this path (reset by the setup)
 		m.Models[ws+".negotiateExtensions"] = func(cl *fold.Call) fold.Val {
 			cl.M.Emit(fold.Effect{Kind: "call", Name: "negotiateExtensions", Args: cl.Args})
-			return fold.Tuple{fold.SymSeq{Name: "exts", Len: fold.Range(0, 10)}, errChoice(cl.M, "negotiate.err", "negotiate-error")}
+			extN++
+			return fold.Tuple{fold.SymSeq{Name: fmt.Sprintf("exts#%d", extN), Len: fold.Range(0, 10)}, errChoice(cl.M, "negotiate.err", "negotiate-error")}
 		}
 		extSel := func(name string) fold.Model {
 			return func(cl *fold.Call) fold.Val {
 				cl.M.Emit(fold.Effect{Kind: "call", Name: name, Args: cl.Args})
-				return fold.Tuple{fold.SymSeq{Name: "exts", Len: fold.Range(0, 10)}, fold.Bool(cl.M.Choose(name+".ok", 2) == 1)}
+				extN++
+				return fold.Tuple{fold.SymSeq{Name: fmt.Sprintf("exts#%d", extN), Len: fold.Range(0, 10)}, fold.Bool(cl.M.Choose(name+".ok", 2) == 1)}
 			}
 		}
 		m.Models[ws+".btsSelectExtensions"] = extSel("selectExtensions")
@@ -279,6 +283,7 @@ func serverUpgraderRules(c *Ctx, prop string) {
 		var out []rec
 		eps := m.Explore(f, func(mm *fold.Machine) []fold.Val {
 			cur = rec{script: si}
+			extN = 0
 			u := fold.SymOfType("u", un).(fold.Struct)
 			for i := 0; i < ust.NumFields(); i++ {
 				fld := ust.Field(i)
@@ -428,6 +433,9 @@ func serverUpgraderRules(c *Ctx, prop string) {
 				whs, _ := wu[0].Args[2].(fold.Struct)
 				if len(whs.F) == 2 && fold.Show(whs.F[0]) != fold.Show(hs.F[0]) {
 					problems = append(problems, "the subprotocol sent differs from the one returned")
+				}
+				for _, why := range extensionAccumulation(p, hs.F[1]) {
+					problems = append(problems, why+" "+desc)
 				}
 				if len(whs.F) == 2 && fold.Show(whs.F[1]) != fold.Show(hs.F[1]) {
 					problems = append(problems, "the extensions sent ("+fold.Show(whs.F[1])+") differ from the ones returned ("+fold.Show(hs.F[1])+") "+desc)
@@ -817,6 +825,39 @@ func rejectionProblems(p *fold.Path, gotErr string, we fold.Effect) []string {
 	}
 	if asked == 0 && !strings.Contains(second, "nil") {
 		out = append(out, "an error that is not a rejection is answered with extra headers "+second)
+	}
+	return out
+}
+
+// extensionAccumulation: every Sec-WebSocket-Extensions line adds to what the
+// earlier lines selected, and what is returned is the result of the last
+// selection (the accumulator is the second argument of all three selectors).
+func extensionAccumulation(p *fold.Path, final fold.Val) []string {
+	var out []string
+	k := 0
+	for _, e := range p.Effects {
+		if e.Kind != "call" || !(e.Name == "negotiateExtensions" || e.Name == "selectExtensions" || e.Name == "ExtensionCustom") || len(e.Args) < 2 {
+			continue
+		}
+		k++
+		empty := false
+		switch v := e.Args[1].(type) {
+		case fold.Nil:
+			empty = true
+		case fold.SliceV:
+			empty = v.Len == 0
+		case fold.SymSeq:
+			empty = v.Nil || v.Len.IsConst() && v.Len.Const() == 0
+		}
+		prev := fmt.Sprintf("exts#%d", k-1)
+		if got := fold.Show(e.Args[1]); !(k == 1 && empty) && !(k > 1 && strings.Contains(got, prev)) {
+			out = append(out, fmt.Sprintf("extension header line %d is selected into %s instead of what the earlier lines selected: the extensions of all but the last line are lost", k, got))
+		}
+	}
+	if k > 0 {
+		if got, want := fold.Show(final), fmt.Sprintf("exts#%d", k); !strings.Contains(got, want) {
+			out = append(out, "the extensions returned are "+got+", the last selection gave "+want)
+		}
 	}
 	return out
 }
